@@ -16,8 +16,8 @@ SHAPES2 = [(1,), (2,), (1, 1), (1, 2), (2, 1), (1, 1, 1), (1, 1, 2), (1, 2, 1), 
 SHAPES3 = [(3,), (1, 3), (3, 1), (3, 1, 1), (1, 3, 1), (1, 1, 3)]
 SHAPES4 = [(2, 2), (4,), (1, 2, 2), (2, 1, 2), (2, 2, 1)]
 # inverse permittivities in units of 1/240, dictionary order (as in ClosestIndex.tla MatSetsQ / MatSetsT)
-MATSETS_Q = [(240, 120), (60, 240), (120, 240, 60), (80, 240, 48), (30, 60, 120, 240), (240, 15, 60, 30, 120)]
-MATSETS_T = MATSETS_Q + [(480, 240), (48, 80), (15, 240, 80), (480, 120, 30), (240, 120, 80, 60, 48), (60, 15, 240, 480)]
+MATSETS_Q = [(240, 120), (80, 240, 48), (30, 60, 120, 240), (240, 15, 60, 30, 120)]
+MATSETS_T = MATSETS_Q + [(60, 240), (120, 240, 60), (480, 240), (48, 80), (15, 240, 80), (480, 120, 30), (240, 120, 80, 60, 48), (60, 15, 240, 480)]
 
 
 def _eps_of_inv240(v):
@@ -48,7 +48,7 @@ def gen_cases(ctx):
     quick = ctx.quick
     # ---- A. the space TLC enumerated (shapes x material sets x arrays over the grid).
     # thorough: every array for all shapes of <= 2 voxels.  quick: every array for the 1-voxel shapes and (material sets
-    # of size <= 3) the 2-voxel shape (2,); for all other shapes the family of V "shifted" arrays in which every voxel
+    # of size 2) the 2-voxel shape (2,); for all other shapes the family of V "shifted" arrays in which every voxel
     # position sees every grid value (the transform is voxel-wise; what the other arrays add is covered by TLC).
     shapes_all = SHAPES2 if quick else SHAPES2 + SHAPES3
     shapes_big = SHAPES3 if quick else SHAPES4
@@ -57,7 +57,7 @@ def gen_cases(ctx):
         cells = 1
         for d in sh:
             cells *= d
-        if cells == 1 or (cells == 2 and (not quick or (n <= 3 and tuple(sh) == (2,)))):
+        if cells == 1 or (cells == 2 and (not quick or (n <= 2 and tuple(sh) == (2,)))):
             yield from itertools.product(grid, repeat=cells)
         else:
             V = len(grid)
@@ -85,7 +85,7 @@ def gen_cases(ctx):
     # ---- B. seeded random: larger shapes (singleton axes anywhere), off-grid dyadic values, more material sets
     ctx.exhaustive = False
     eps_pool = [[1, 1], [2, 1], [4, 1], [8, 1], [16, 1], [3, 1], [5, 1], [3, 2], [1, 2], [9, 4], [12, 1], [6, 1], [10, 1]]
-    nrand = 300 if quick else 3000
+    nrand = 200 if quick else 3000
     for k in range(nrand):
         n = rng.randint(2, 5)
         rank = rng.randint(1, 3)
